@@ -73,7 +73,13 @@ func Compare(path string) (compare.Pass, error) {
 	for _, c := range h.changes {
 		var toModule *compile.Module
 		if c.change == merkletrie.Modify {
-			toModule, err = compile.Compile(c.file, compile.Filesystem(fs))
+			// A renamed file is reported as a modification: in the new tree
+			// it lives under its new name.
+			toFile := c.file
+			if c.renamedTo != "" {
+				toFile = c.renamedTo
+			}
+			toModule, err = compile.Compile(toFile, compile.Filesystem(fs))
 			if err != nil {
 				return pass, err
 			}
@@ -135,6 +141,8 @@ type treeChanges struct {
 type change struct {
 	file   string
 	change merkletrie.Action
+	// renamedTo is the file's name in the new tree if it was renamed.
+	renamedTo string
 }
 
 // findChangedThrift reads a git repo and finds any Thrift files that got changed
@@ -177,10 +185,14 @@ func findChangedThrift(r *git.Repository) (*treeChanges, error) {
 			continue
 		}
 		if filepath.Ext(from.Name) == ".thrift" {
-			changed = append(changed, &change{
+			ch := &change{
 				file:   o.From.Name,
 				change: a,
-			})
+			}
+			if a == merkletrie.Modify && o.To.Name != o.From.Name {
+				ch.renamedTo = o.To.Name
+			}
+			changed = append(changed, ch)
 		}
 	}
 
